@@ -304,8 +304,13 @@ class Report:
         self.caps = []
         self.seed = int(os.environ.get("VERIF_SEED", "0") or 0)
 
-    def violation(self, kind, case, detail, sigs=()):
-        self.violations.append({"kind": kind, "sigs": sorted(set(sigs)), "case": case, "detail": detail})
+    def violation(self, kind, case, detail, sigs=(), groups=None):
+        """sigs: predicates any one of which explains the violation; groups (optional): one set of
+        predicates per failing position, every one of which must be explained."""
+        v = {"kind": kind, "sigs": sorted(set(sigs)), "case": case, "detail": detail}
+        if groups is not None:
+            v["sig_groups"] = [sorted(g) for g in groups]
+        self.violations.append(v)
 
     def finish(self, coverage, assumptions=()):
         replay = os.environ.get("VERIF_REPLAY_DIGEST")
@@ -322,10 +327,15 @@ class Report:
         unknown, matched = [], {}
         for v in self.violations:
             hit = None
-            for e in self.known:
-                if e["predicate"] in v["sigs"] and (not e.get("kinds") or v["kind"] in e["kinds"]):
-                    hit = e
-                    break
+            if v.get("sig_groups"):
+                known_preds = {e["predicate"]: e for e in self.known if not e.get("kinds") or v["kind"] in e["kinds"]}
+                if all(any(p in known_preds for p in g) for g in v["sig_groups"]):
+                    hit = known_preds[next(p for p in v["sig_groups"][0] if p in known_preds)]
+            else:
+                for e in self.known:
+                    if e["predicate"] in v["sigs"] and (not e.get("kinds") or v["kind"] in e["kinds"]):
+                        hit = e
+                        break
             if hit is None:
                 unknown.append(v)
             else:
